@@ -27,12 +27,36 @@
       a Cancel of the internal timer) having been issued no earlier than that
       expiry, or being a non-replacing update that did not reach beyond it
       (never for a cancelled or superseded timer).
-    The converse (an update that sets the timer queues a TimerBegin at that
-    instant, and the expiry fires before time passes it) is [C18_begins] with
-    [C18_not_past]. *)
+    - [C18_live]: the converse at the level of whole runs, for configurations
+      in which no BlockOutgoing action allows bypass. With the machine's timer
+      REPLAYED from the history by the contract ([SimTimerLive.treplay]: an
+      UpdateTimer sets it if replace, none running, or a later expiry; a
+      Cancel of the internal timer or of all timers, and a reported TimerEnd,
+      clear it): (a) whenever an UpdateTimer sets or changes the timer and
+      simulated time moves on, a TimerBegin for that machine at that instant
+      is reported in between; (b) whenever the replayed timer has expiry e and
+      simulated time moves past e, a TimerEnd at exactly e is reported in
+      between, or a timer action for that machine (an update or a cancel) was
+      returned no later than e; (c) two TimerEnd of a machine have an
+      UpdateTimer for it between them (at most once per timer). Plus the
+      stronger form of (a) that judges the timer after the event of the record
+      itself (a zero-duration update returned for the machine's own TimerEnd).
+      [C18_live_partial] is the same for EVERY configuration under the
+      run-level premise that no returned action is a bypass-allowing block.
+      With bypassable blocking the statements with this literal replay are
+      REFUTED ([C18_literal_replay_refuted], a real run): behind bypassable
+      blocking a due bypass packet can be released in the very instant a timer
+      fired, after the firing and before the queued TimerEnd; an UpdateTimer
+      returned for that packet re-arms the timer, and the TimerEnd of the
+      PREVIOUS timer is reported after the re-arm in that same instant, so a
+      replay that lets any TimerEnd clear the timer loses the new one. Every
+      TimerEnd there is still the expiry of a timer set by the rule
+      ([C18_trace]); the failure is one of attribution within an instant, not
+      a timer ending at a wrong time.
+    (Step level: [C18_begins] with [C18_not_past].) *)
 From MB Require Import Model.Framework Model.Sim.
 From MB Require Import Proofs.SimReach.
-From MB Require Proofs.SimBlocking Proofs.SimTimers Proofs.SimTrace Proofs.SimHistory Proofs.SimTimerTrace.
+From MB Require Proofs.SimBlocking Proofs.SimTimers Proofs.SimTrace Proofs.SimHistory Proofs.SimTimerTrace Proofs.SimTimerLive.
 Import ListNotations SimTimers.
 Open Scope N_scope.
 
@@ -121,3 +145,55 @@ Proof.
   - exact (SimTimerTrace.timer_end_sound_parsed fuel cc sc tp args st0 t0 H tr delay delay pps Hi Hl).
 Qed.
 Print Assumptions C18_trace.
+
+Theorem C18_live : forall fuel cc sc tp tr delay pps args out,
+  SimTimerLive.cfg_no_bypass_block cc -> SimTimerLive.cfg_no_bypass_block sc -> SimHistory.full_args args ->
+  sim_advanced fuel cc sc tp (parse_trace tr delay) delay pps args = Ok out ->
+  exists H : list SimHistory.hrec, out = map SimHistory.h_ev H /\
+    SimTimerLive.live_statements H /\ SimTimerLive.live_begin_strong H.
+Proof. exact SimTimerLive.timers_live. Qed.
+Print Assumptions C18_live.
+
+Theorem C18_live_partial : forall fuel cc sc tp tr delay pps args out,
+  SimHistory.full_args args ->
+  sim_advanced fuel cc sc tp (parse_trace tr delay) delay pps args = Ok out ->
+  exists H : list SimHistory.hrec, out = map SimHistory.h_ev H /\
+    (SimTimerLive.no_bypass_block H -> SimTimerLive.live_statements H /\ SimTimerLive.live_begin_strong H).
+Proof. exact SimTimerLive.timers_live_partial. Qed.
+Print Assumptions C18_live_partial.
+
+(** what the three statements are (pinned here so that they cannot be weakened silently) *)
+Lemma C18_live_statements_unfold : forall H, SimTimerLive.live_statements H <->
+  (forall j rj m dur rp k' rk', nth_error H j = Some rj -> In (TUpdateTimer m dur rp) (SimHistory.h_acts rj) ->
+     let X := se_client (SimHistory.h_ev rj) in let t := se_time (SimHistory.h_ev rj) in
+     (rp = true \/ SimTimerLive.treplay X m H j = None \/
+      (exists u, SimTimerLive.treplay X m H j = Some u /\ (u < t + Z.of_N dur)%Z)) ->
+     (j < k')%nat -> nth_error H k' = Some rk' -> (t < se_time (SimHistory.h_ev rk'))%Z ->
+     exists k rk, (j < k < k')%nat /\ nth_error H k = Some rk /\ se_ev (SimHistory.h_ev rk) = TETimerBegin m /\
+                  se_client (SimHistory.h_ev rk) = X /\ se_time (SimHistory.h_ev rk) = t) /\
+  (forall j m e k' rk' X, (j <= length H)%nat -> SimTimerLive.treplay X m H j = Some e ->
+     (j <= k')%nat -> nth_error H k' = Some rk' -> (e < se_time (SimHistory.h_ev rk'))%Z ->
+     (exists k rk, (j <= k < k')%nat /\ nth_error H k = Some rk /\ se_ev (SimHistory.h_ev rk) = TETimerEnd m /\
+                   se_client (SimHistory.h_ev rk) = X /\ se_time (SimHistory.h_ev rk) = e) \/
+     (exists j' rj' a', (j <= j' < k')%nat /\ nth_error H j' = Some rj' /\ se_client (SimHistory.h_ev rj') = X /\
+                   In a' (SimHistory.h_acts rj') /\ SimTimerTrace.is_timer_for m a' = true /\
+                   (se_time (SimHistory.h_ev rj') <= e)%Z)) /\
+  (forall k1 k2 r1 r2 m, (k1 < k2)%nat -> nth_error H k1 = Some r1 -> nth_error H k2 = Some r2 ->
+     se_ev (SimHistory.h_ev r1) = TETimerEnd m -> se_ev (SimHistory.h_ev r2) = TETimerEnd m ->
+     se_client (SimHistory.h_ev r1) = se_client (SimHistory.h_ev r2) ->
+     exists j rj dur rp, (k1 <= j < k2)%nat /\ nth_error H j = Some rj /\
+        se_client (SimHistory.h_ev rj) = se_client (SimHistory.h_ev r1) /\
+        In (TUpdateTimer m dur rp) (SimHistory.h_acts rj)).
+Proof. intros H. reflexivity. Qed.
+
+(** with bypassable blocking the literal replay is refuted by a real run on a parsed trace *)
+Lemma C18_literal_replay_refuted :
+  exists cc sc tp tr delay pps args (H : list SimHistory.hrec),
+    SimHistory.full_args args /\
+    sim_advanced 300 cc sc tp (parse_trace tr delay) delay pps args = Ok (map SimHistory.h_ev H) /\
+    ~ SimTimerLive.no_bypass_block H /\ ~ SimTimerLive.live_statements H.
+Proof.
+  destruct SimTimerLive.lvA_run as (A & B & _).
+  do 8 eexists. split; [exact A|]. split; [exact B|].
+  split; [exact SimTimerLive.lvA_bypass|exact SimTimerLive.timers_live_counterexample].
+Qed.
